@@ -22,6 +22,7 @@ type c10Write struct {
 	waitMs  int        // natural expiry: wait instead of issuing a command
 	noSelf  bool       // cannot be issued by the watching connection (e.g. blocking semantics irrelevant)
 	unwatch string     // control rows: "unwatch", "discard", "exec" between WATCH and the final MULTI
+	rewatch bool       // WATCH w is issued a second time after the write: the modification must not be forgotten
 }
 
 var c10Setups = map[string][][]string{
@@ -94,6 +95,17 @@ func c10Table() []c10Write {
 	for _, u := range []string{"unwatch", "discard", "exec"} {
 		t = append(t, c10Write{name: "after-" + u + "/SET", state: "string", setup: c10Setups["string"], cmd: []string{"SET", "w", "changed"}, modify: false, unwatch: u})
 		t = append(t, c10Write{name: "after-" + u + "/LPUSH", state: "list", setup: c10Setups["list"], cmd: []string{"LPUSH", "w", "x"}, modify: false, unwatch: u})
+	}
+	// RENAME of a key to itself changes nothing (all types)
+	for _, st := range []string{"string", "list", "hash", "set"} {
+		t = append(t, c10Write{name: "RENAME-self", state: st, setup: c10Setups[st], cmd: []string{"RENAME", "w", "w"}, modify: false})
+		t = append(t, c10Write{name: "COPY-self", state: st, setup: c10Setups[st], cmd: []string{"COPY", "w", "w"}, modify: false})
+	}
+	// watching the key a second time (or other keys) after the modification does not forget it
+	for _, w := range []c10Write{{state: "string", cmd: []string{"SET", "w", "v"}}, {state: "list", cmd: []string{"LPUSH", "w", "x"}}, {state: "hash", cmd: []string{"HDEL", "w", "f"}}, {state: "set", cmd: []string{"SADD", "w", "x"}},
+		{state: "missing", cmd: []string{"SET", "w", "v"}}, {state: "string", cmd: []string{"DEL", "w"}}, {state: "string-ttl", cmd: []string{"PERSIST", "w"}}} {
+		w.name, w.setup, w.modify, w.rewatch = "rewatch/"+cmdTag(w.cmd), c10Setups[w.state], true, true
+		t = append(t, w)
 	}
 	var out []c10Write
 	for _, w := range t {
@@ -176,6 +188,10 @@ func c10Run(r *verdict.Run, e *emu, cs c10Case) {
 	}
 	if cs.position == "before-multi" {
 		issue()
+		if cs.w.rewatch {
+			step(A, sa, "A", "WATCH", "w")
+			step(A, sa, "A", "WATCH", "o", "w", "nokey")
+		}
 	}
 	step(A, sa, "A", "MULTI")
 	if cs.position == "after-multi" {
